@@ -166,6 +166,10 @@ func bscVariants(max int) []csVariant {
 		{"height 0", func(c *bsctypes.ClientState) { c.Header.Height = clienttypes.Height{} }},
 		{"height not on epoch", func(c *bsctypes.ClientState) { c.Header.Height.RevisionHeight = 401 }},
 		{"extra without validators", func(c *bsctypes.ClientState) { c.Header.Extra = make([]byte, 97) }},
+		// validly sealed by its own coinbase, but the extra data is shorter than vanity + seal (65, 81 and 96 bytes)
+		{"sealed header with 65 bytes of extra data", func(c *bsctypes.ClientState) { c.Header = *c09.Build(c09.Spec{Number: 400, Signer: 0, Coinbase: -1, Diff: 2, Vanity: -32}) }},
+		{"sealed header with 81 bytes of extra data", func(c *bsctypes.ClientState) { c.Header = *c09.Build(c09.Spec{Number: 400, Signer: 0, Coinbase: -1, Diff: 2, Vanity: -16}) }},
+		{"sealed header with 96 bytes of extra data", func(c *bsctypes.ClientState) { c.Header = *c09.Build(c09.Spec{Number: 400, Signer: 0, Coinbase: -1, Diff: 2, Vanity: -1}) }},
 		{"extra validators length not multiple of 20", func(c *bsctypes.ClientState) { c.Header.Extra = make([]byte, 97+19) }},
 		{"bloom 257 bytes", func(c *bsctypes.ClientState) { c.Header.Bloom = make([]byte, 257) }},
 		{"bloom empty", func(c *bsctypes.ClientState) { c.Header.Bloom = nil }},
